@@ -302,6 +302,9 @@ MutateFile(name, out, bak, edits, body, res, texts) ==     \* texts: [out, bak]:
   /\ MutateInDomain(name, out, bak, edits)
   /\ LET o0 == MutEntry(name)  o1 == ApplyEdits(o0, edits, 1)
          target == IF out = <<>> THEN name ELSE out IN
+     IF body = "unwritable" THEN /\ res # "ok"           \* a destination that cannot be opened for writing (it is a directory): the save is
+                                 /\ fs' = fs             \* refused with an exception and no file changes - the input keeps its content
+     ELSE
      IF body # "normal" THEN /\ res = (IF body = "CancelMutation" THEN "ok" ELSE body)      \* cancelled: no exception; raised: that exception
                              /\ fs' = fs                                                   \* and nothing is written
      ELSE /\ res = "ok"
